@@ -148,6 +148,17 @@ FinalCats(p, f, t, fuel) ==
 CandCats(p, c, fuel) ==
   LET d == DefAt(p, c) IN IF d.k = "typedef" THEN FinalCats(p, c.f, d.ty, fuel - 1) ELSE {KindCat[d.k]}
 
+\* the definition (or base / container type expression) a type expression finally denotes, as semantic.Deref reports it:
+\* [file, name, cat]; for a base or container type the file is the one in which it is written
+RECURSIVE FinalDefs(_, _, _, _)
+FinalDefs(p, f, t, fuel) ==
+  IF t.n \in DOMAIN BaseCat THEN {[file |-> FPath(p, f), name |-> t.n, cat |-> BaseCat[t.n]]}
+  ELSE IF t.n \in DOMAIN ContCat THEN {[file |-> FPath(p, f), name |-> t.n, cat |-> ContCat[t.n]]}
+  ELSE IF fuel = 0 THEN {}
+  ELSE UNION {LET d == DefAt(p, c) IN
+              IF d.k = "typedef" THEN FinalDefs(p, c.f, d.ty, fuel - 1)
+              ELSE {[file |-> FPath(p, c.f), name |-> d.name, cat |-> KindCat[d.k]]} : c \in TypeCands(p, f, t)}
+
 \* the enum definitions a written type name denotes (through typedefs): set of [f, d]
 RECURSIVE EnumsOf(_, _, _, _)
 EnumsOf(p, f, t, fuel) ==
@@ -228,7 +239,14 @@ Sym(p) ==
      [nm \in TypeNames(p, g) |->
         [cats |-> FinalCats(p, g, Ref("", nm), Fuel),
          td |-> DefIdx(p, g, nm, {"typedef"}) # {},
-         enums |-> EnumsOf(p, g, Ref("", nm), Fuel)]]]
+         enums |-> EnumsOf(p, g, Ref("", nm), Fuel),
+         fin |-> FinalDefs(p, g, Ref("", nm), Fuel)]]]
+DerefS(p, sym, f, t) ==
+  IF t.n # "ref" THEN FinalDefs(p, f, t, Fuel)
+  ELSE UNION {sym[s.f][t.name].fin : s \in {s \in Scopes(p, f, t.pre) : t.name \in DOMAIN sym[s.f]}}
+\* name -> category of everything a file defines (Thrift.Name2Category)
+N2C(p, f) == [nm \in {Defs(p, f)[i].name : i \in DOMAIN Defs(p, f)} |->
+                KindCat[Defs(p, f)[CHOOSE i \in DOMAIN Defs(p, f) : Defs(p, f)[i].name = nm].k]]
 AllowedTypeS(p, sym, f, t) ==
   IF t.n \in DOMAIN BaseCat THEN {[cat |-> BaseCat[t.n], td |-> FALSE, ref |-> NoRef]}
   ELSE IF t.n \in DOMAIN ContCat THEN {[cat |-> ContCat[t.n], td |-> FALSE, ref |-> NoRef]}
@@ -253,7 +271,8 @@ AllowedExtraS(p, sym, f, segs, T) ==
 \* the table agrees with the definitions (checked by TLC on every program of the universe)
 SymConsistent(p, sym) ==
   \A f \in 1 .. NFiles(p) :
-     /\ \A n \in FileTypeNodes(p, f) : AllowedTypeS(p, sym, f, n.t) = AllowedType(p, f, n.t)
+     /\ \A n \in FileTypeNodes(p, f) : /\ AllowedTypeS(p, sym, f, n.t) = AllowedType(p, f, n.t)
+                                         /\ DerefS(p, sym, f, n.t) = FinalDefs(p, f, n.t, Fuel)
      /\ \A n \in FileIdNodes(p, f) :
           /\ ValTargetsS(p, sym, f, n.segs) = ValTargets(p, f, n.segs)
           /\ AllowedExtraS(p, sym, f, n.segs, ValTargetsS(p, sym, f, n.segs)) = AllowedExtra(p, f, n.segs)
